@@ -175,6 +175,15 @@ Theorem C10_recycled_is_first_expired : forall c now mac s i,
 Proof. exact recycled_is_first_expired. Qed.
 Print Assumptions C10_recycled_is_first_expired.
 
+(** Why [hist_ok] asks for one length of hardware address in messages: the
+    pinned code recycles an expired lease with copy(), which keeps the length
+    of the previous owner's address; without the assumption "one lease per
+    client" fails (witness: an 8-byte address whose first six bytes are
+    another client's; reproduced on the real server, reported). *)
+Theorem C10_one_lease_per_client_needs_hist_ok_refuted : ~ one_lease_per_client_statement.
+Proof. exact mixed_hwaddr_refuted. Qed.
+Print Assumptions C10_one_lease_per_client_needs_hist_ok_refuted.
+
 (** The configurations the server runs with are the ones Validate accepts
     (start < end, gateway outside the pool, both ends inside the subnet: the
     harness compares [valid_conf_b (conf_of ...)] with the real Validate on
